@@ -91,8 +91,12 @@ class DistributeMapper(IdentityMapper):
                 else:
                     rest = 1
 
+                # Distribute the whole term again: 'rest' may itself have
+                # come back as a sum, which must not stay below the leading
+                # factors.
                 result = self.collect(pymbolic.flattened_sum([
-                       pymbolic.flattened_product(leading) * dist(sumchild*rest)
+                       dist(pymbolic.flattened_product(
+                           [*leading, sumchild, rest]))
                        for sumchild in sum.children
                        ]))
                 return result
